@@ -207,7 +207,7 @@ static void a_case(uint64_t idx, void *ctx)
 }
 
 /* ------------------------------------------------------------------ (B) %put / %get histories (E1) */
-static const char *VOPS[] = { "%put(k v1)", "%put(k v2)", "%put(j v1)", "x%get(k)y", "%get(j)", "%get(k dflt)", "%put(k)", "%get(%get(j))", "%put(a %get(k))", "%put(j '')", "p%get(j)q", "%put(K v3)", "u%get(K)w", "%put(\xe9t v4)", "s%get(\xe9t)t", "[%get(j dflt)]" };      /* the last one: a variable that exists with an empty value is not an unset one */      /* K and k are different variables */
+static const char *VOPS[] = { "%put(k v1)", "%put(k v2)", "%put(j v1)", "x%get(k)y", "%get(j)", "%get(k dflt)", "%put(k)", "%get(%get(j))", "%put(a %get(k))", "%put(j '')", "p%get(j)q", "%put(K v3)", "u%get(K)w", "%put(\xe9t v4)", "s%get(\xe9t)t", "[%get(j dflt)]", "%put(k \"v w\")", "%put( j v5)" };      /* the last one: a variable that exists with an empty value is not an unset one */      /* K and k are different variables */
 #define NVOPS ((int) (sizeof VOPS / sizeof VOPS[0]))
 typedef struct { char k[8], j[8], a[8], K[8], E[8]; int hk, hj, ha, hK, hE; int init; } vs_t;      /* E: the variable whose name starts with the byte 0xE9 */      /* h*: the variable exists (its value may be empty) */
 static vs_t *g_vs;
@@ -247,7 +247,9 @@ static void v_apply(void *vs, int op)
     /* the reference: %put updates the dictionary and yields nothing; %get reads it */
     if (!strncmp(VOPS[op], "%put(", 5)) {
         char key[8] = "", val[60] = ""; ok = 1; expect[0] = 0;
-        if (op == 8) { const char *kv = m_store_get("k"); if (kv && *kv) { snprintf(s->a, sizeof s->a, "%s", kv); s->ha = 1; } /* %put(a <value of k>): malformed (one word) when k is unset or empty */ }
+        if (op == 8) { const char *kv = m_store_get("k"); if (kv && *kv && !strchr(kv, ' ')) {      /* (a value of two words makes it a call with three: malformed, like the one-word call) */ snprintf(s->a, sizeof s->a, "%s", kv); s->ha = 1; } /* %put(a <value of k>): malformed (one word) when k is unset or empty */ }
+        else if (op == 16) { snprintf(s->k, 8, "v w"); s->hk = 1; }            /* a quoted value of two words */
+        else if (op == 17) { snprintf(s->j, 8, "v5"); s->hj = 1; }             /* blanks before the name: the words are what counts */
         else if (op == 9) { s->j[0] = 0; s->hj = 1; }                          /* %put(j ''): the variable exists with an empty value */
         else if (sscanf(VOPS[op] + 5, "%7[^ )] %50[^)]", key, val) == 2) { if (!strcmp(key, "k")) { snprintf(s->k, 8, "%s", val); s->hk = 1; } else if (!strcmp(key, "K")) { snprintf(s->K, 8, "%s", val); s->hK = 1; } else if (!strcmp(key, "\xe9t")) { snprintf(s->E, 8, "%s", val); s->hE = 1; } else { snprintf(s->j, 8, "%s", val); s->hj = 1; } }
     } else { ok = ref_expand(VOPS[op], &R); R.out[R.n] = 0; snprintf(expect, sizeof expect, "%s", R.out); }
